@@ -58,12 +58,12 @@ Lemma write_at_comm f a b :
   write_at (write_at f (fst a) (snd a)) (fst b) (snd b) = write_at (write_at f (fst b) (snd b)) (fst a) (snd a).
 Proof.
   intros Hd. apply (nth_ext _ _ 0%Z 0%Z).
-  - rewrite !write_at_len. lia.
+  - rewrite !write_at_len. unfold byte in *. lia.
   - intros i _. rewrite !nth_write_at. unfold jdisj in Hd.
     repeat match goal with
            | |- context [Nat.leb ?x ?y] => destruct (Nat.leb_spec x y)
            | |- context [Nat.ltb ?x ?y] => destruct (Nat.ltb_spec x y)
-           end; simpl; try reflexivity; exfalso; destruct a as [oa ba], b as [ob bb]; simpl in *; destruct Hd; lia.
+           end; simpl; try reflexivity; exfalso; unfold byte in *; lia.
 Qed.
 
 Lemma write_all_app f l1 l2 : write_all f (l1 ++ l2) = write_all (write_all f l1) l2.
@@ -82,13 +82,13 @@ Section Perm.
     induction 1 as [|x l l' Hp IH|x y l|l l' l'' Hp1 IH1 Hp2 IH2]; intros Hnd Hdis f.
     - reflexivity.
     - simpl. unfold write_all in *. simpl. inversion Hnd; subst. apply IH; [assumption|].
-      intros t1 t2 H1 H2. apply Hdis; right; assumption.
-    - simpl. unfold write_all. simpl. f_equal. apply write_at_comm.
-      inversion Hnd as [|? ? Hni _]; subst. apply Hdis; [right; left; reflexivity|left; reflexivity|].
+      intros t1 t2 G1 G2. apply Hdis; right; assumption.
+    - simpl. unfold write_all. simpl. f_equal. apply (write_at_comm f (job c y) (job c x)).
+      inversion Hnd as [|? ? Hni _]; subst. apply Hdis; [left; reflexivity|right; left; reflexivity|].
       intros ->. apply Hni. left. reflexivity.
     - rewrite IH1 by assumption. apply IH2.
       + eapply Permutation_NoDup; eassumption.
-      + intros t1 t2 H1 H2. apply Hdis; eapply Permutation_in; try eassumption; apply Permutation_sym; assumption.
+      + intros t1 t2 G1 G2. apply Hdis; eapply Permutation_in; try eassumption; apply Permutation_sym; assumption.
   Qed.
 End Perm.
 
@@ -99,7 +99,7 @@ Definition maxend (jobs : list (nat * list Z)) : nat :=
 Lemma write_all_len jobs : forall f, length (write_all f jobs) = Nat.max (length f) (maxend jobs).
 Proof.
   induction jobs as [|j r IH]; intros f; unfold write_all in *; simpl; [lia|].
-  rewrite IH, write_at_len. lia.
+  rewrite IH, write_at_len. unfold byte in *. lia.
 Qed.
 
 Lemma write_all_nth jobs : forall f g,
@@ -113,7 +113,7 @@ Lemma write_all_prealloc jobs :
   write_all (repeat 0%Z (maxend jobs)) jobs = write_all [] jobs.
 Proof.
   apply (nth_ext _ _ 0%Z 0%Z).
-  - rewrite !write_all_len, repeat_length. simpl. lia.
+  - rewrite !write_all_len, repeat_length. simpl. unfold byte in *. lia.
   - intros i _. apply write_all_nth. intros k. rewrite nth_repeat0. destruct k; reflexivity.
 Qed.
 
@@ -125,7 +125,7 @@ Proof.
                           then Nat.max m (t_off (task_of c t) + length (t_bytes (task_of c t))) else m) l a
     = Nat.max a (maxend (map (job c) (filter (fun t => Nat.eqb (tpool c t) p) l)))).
   { induction l as [|t l IH]; intros a; simpl; [lia|].
-    rewrite IH. destruct (Nat.eqb (tpool c t) p); simpl; unfold job; simpl; lia. }
+    rewrite IH. destruct (Nat.eqb (tpool c t) p); simpl; unfold job; simpl; unfold byte in *; lia. }
   rewrite H. lia.
 Qed.
 
@@ -239,4 +239,49 @@ Proof.
     { intros t Ht. apply (Permutation_in _ Hperm) in Ht. unfold pool_tasks in Ht. apply filter_In in Ht.
       destruct Ht as [A B]. apply in_tasks in A. apply Nat.eqb_eq in B. auto. }
     destruct (Hin t1 H1) as [A1 B1]. destruct (Hin t2 H2) as [A2 B2]. apply Hdis; try assumption. congruence.
+Qed.
+
+(* ---------- C09_cb_once *)
+Lemma cb_once c s :
+  wf_cfg c -> reachable c s ->
+  NoDup (s_cblog s) /\ (forall t, In t (s_cblog s) -> t < nt c) /\
+  (s_main s = MDeliv false -> Permutation (s_cblog s) (tasks c)).
+Proof.
+  intros Wf Hr.
+  pose proof (safe_reachable c s Hr) as [_ _ Hco [Hnd Hiff] _].
+  destruct (drv_reachable c s Hr) as [Hd Hrange].
+  assert (Hlt : forall t, In t (s_cblog s) -> t < nt c).
+  { intros t Hin. apply Hiff in Hin. destruct Hin as [Hx|(w0 & pc0 & Hw0 & _)].
+    - destruct (Nat.lt_ge_cases t (nt c)) as [Hl|Hg]; [exact Hl|]. rewrite (Hrange t Hg) in Hx. discriminate.
+    - apply (co_run c s Hco w0 t). rewrite Hw0. reflexivity. }
+  split; [exact Hnd|]. split; [exact Hlt|]. intros Hm.
+  destruct (error_path c s false Wf Hr Hm) as (Hdone & _ & _ & _ & Hnoraise).
+  apply NoDup_Permutation; [exact Hnd|apply nodup_tasks|].
+  intros t. rewrite in_tasks. split; [apply Hlt|]. intros Ht.
+  destruct Wf as [_ Wf2]. destruct (Hdone (tpool c t) (Wf2 t Ht)) as [e' He'].
+  pose proof (Hd (tpool c t)) as Hdp. unfold dpool_ok in Hdp. rewrite He' in Hdp. destruct Hdp as (_ & Hend & _).
+  apply Hiff. left. destruct e'.
+  - exfalso. destruct Hend as [_ Hf]. apply failed_iff in Hf. destruct Hf as (t' & Hlt' & _ & Ht').
+    assert (false = true) by (apply Hnoraise; eauto). discriminate.
+  - destruct Hend as [_ Ha]. rewrite all_ok_iff in Ha. rewrite (Ha t Ht eq_refl). reflexivity.
+Qed.
+
+Lemma run_reachable c : forall sched s s', reachable c s -> run c s sched = Some s' -> reachable c s'.
+Proof.
+  induction sched as [|th r IH]; intros s s' Hr H; simpl in H.
+  - injection H as <-. exact Hr.
+  - destruct (step c s th) as [s1|] eqn:E; [|discriminate]. apply (IH s1); [|exact H].
+    eapply reach_step; eassumption.
+Qed.
+
+Lemma follow_reachable c : forall tr s s', reachable c s -> follow c s tr = Some s' -> reachable c s'.
+Proof.
+  induction tr as [|o r IH]; intros s s' Hr H; simpl in H.
+  - injection H as <-. exact Hr.
+  - destruct (ostep_ok c s o) as [s1|] eqn:E; [|discriminate]. apply (IH s1); [|exact H].
+    unfold ostep_ok in E. destruct o as [[[[th code] t] inf] ov].
+    destruct (Nat.eqb (ev_code c s th) code && Nat.eqb (ev_task c s th) t); [|discriminate].
+    destruct (step c s th) as [s2|] eqn:Es; [|discriminate].
+    destruct (Z.eqb (s_inflight s2) inf && Bool.eqb (s_over s2) ov); [|discriminate].
+    injection E as <-. eapply reach_step; eassumption.
 Qed.
